@@ -82,8 +82,15 @@ def canon_ast(f):
     for p in g['parts']:
         p['n'] = canon_n(p['n'])
     if g['charge'] is not None:
-        g['charge'] = [g['charge'][0], canon_n(g['charge'][1])]
+        if is_zero_charge(g['charge']):
+            g['charge'] = None                    # a charge written with value zero is not presented
+        else:
+            g['charge'] = [g['charge'][0], canon_n(g['charge'][1])]
     return g
+
+
+def is_zero_charge(ch):
+    return ch is not None and ch[1] is not None and int(ch[1]) == 0
 
 
 def int_ast(f):
@@ -193,9 +200,9 @@ class C13(Property):
             'A case is non-trivial when it is a distinct JSON value whose formula text has at least two characters.')
     assumptions = ('the AST renderer / denotation (tools/harness/formula_gen.py = Model/FormulaSpec.lean) and the un-presentation maps re-stated in '
                    'tools/harness/c13.py (from the property text, not from chempy tables) are the specification',
-                   'outside the modelled domain, excluded from generation: non-ASCII digits, blanks / "_" inside the charge number, a charge written 0',
+                   'outside the modelled domain, excluded from generation: non-ASCII digits, blanks / "_" inside the charge number',
                    're (digit-run substitution, brace escaping) and str.replace are hand-modelled and tied by this correspondence only',
-                   'reaction printing: integer coefficients, no parameter, no name, no inactive groups (C12 covers those)')
+                   'reaction printing: int and Fraction coefficients are modelled (float coefficients: oracle only), no parameter, no name, no inactive groups (C12 covers those)')
     anchors = (('chempy/util/parsing.py', '_formula_to_format'), ('chempy/util/parsing.py', '_subs'),
                ('chempy/util/parsing.py', 'formula_to_latex'), ('chempy/util/parsing.py', 'formula_to_unicode'),
                ('chempy/util/parsing.py', 'formula_to_html'), ('chempy/util/parsing.py', '_formula_to_parts'),
@@ -211,7 +218,7 @@ class C13(Property):
         cases = []
         depth = 3 if tier == 'quick' else 6
         for s in fg.WELL_KNOWN + ['Fe(CN)6+2(aq)', 'Fe+12', 'SO4-02', 'CuSO4·05H2O', 'Na2CO3..1H2O', 'UO2.30', 'C{N}2', 'a{b}', 'epsilon-Fe2O3',
-                                  'upsilon-X', 'psi-Fe', 'eta-Fe', 'H2O(g)(s)', '..H2O', 'H2O..', 'H2.O', 'H2.5.3O', '1.5', '10']:
+                                  'upsilon-X', 'psi-Fe', 'eta-Fe', 'H+0', 'Fe+0', 'H2O-0(aq)', 'SO4-00', 'H2O(g)(s)', '..H2O', 'H2O..', 'H2.O', 'H2.5.3O', '1.5', '10']:
             cases.append({'op': 'text', 's': s})
             cases.append({'op': 'substance', 's': s})
         for p in fg.PREFIXES:                                   # every prefix alone and with a neighbour
@@ -227,6 +234,8 @@ class C13(Property):
                         p['n'] = rng.choice(['1', '01', '007', '10', '12', '2'])
                 if f['charge'] is not None and f['charge'][1] is not None:
                     f['charge'] = [f['charge'][0], rng.choice(['1', '01', '03', '10', '12', '100'])]
+            elif r < 0.12 or (0.5 < r < 0.52):                  # a written zero charge
+                f['charge'] = [rng.choice([1, -1]), rng.choice([0, 0, '00'])]
             s = fg.render(f)
             if r < 0.50:
                 cases.append({'op': 'ast', 'ast': f})
@@ -238,7 +247,7 @@ class C13(Property):
                 t = s
                 for _ in range(rng.choice([1, 1, 2])):
                     t = mutate(rng, t)
-                if in_domain(t) and not re.search(r'[+-]0*$|[+-]0+\(', t):
+                if in_domain(t):
                     cases.append({'op': 'text', 's': t})
             elif r < 0.84:
                 sfx = rng.choice([[], ['(s)'], ['(aq)', '(g)'], ['(cr)'], ['(s)', '(l)', '(g)', '(aq)', '(cr)']])
@@ -262,13 +271,18 @@ class C13(Property):
         keys = []
         while len(keys) < rng.randint(2, 5):
             f = fg.gen_formula(rng, max_depth=rng.randint(0, 2), plain=rng.random() < 0.5)
-            if f['charge'] is not None and f['charge'][1] == 0:
-                continue
             k = fg.render(f)
             if k not in keys:
                 keys.append(k)
         nre = rng.randint(1, len(keys) - 1)
-        coef = lambda: rng.choice([1, 1, 1, 2, 2, 3, 4, 10, 12, 0])
+        kind = rng.random()
+
+        def coef():
+            if kind < 0.55:                                     # ints
+                return rng.choice([1, 1, 1, 2, 2, 3, 4, 10, 12, 0])
+            if kind < 0.85:                                     # fractions.Fraction, sent as [num, den] (incl. values in (0, 1), 1 and 0)
+                return rng.choice([[1, 2], [1, 3], [2, 3], [3, 2], [1, 10], [7, 4], [1, 1], [2, 1], [0, 1], 1, 3])
+            return {'float': rng.choice([0.5, 0.25, 1.5, 2.0, 1.0, 0.1, 0.0, 3.0])}      # floats: oracle only (str(float) is not modelled)
         reac = [[k, coef()] for k in keys[:nre]]
         prod = [[k, coef()] for k in keys[nre:]]
         known = [k for k in keys if rng.random() < 0.85]
@@ -276,10 +290,18 @@ class C13(Property):
                 'substances': known, 'reac': reac, 'prod': prod}
 
     # ------------------------------------------------------------------ correspondence
+    @staticmethod
+    def _coef(v):
+        if isinstance(v, list):
+            return Fraction(v[0], v[1])
+        if isinstance(v, dict):
+            return float(v['float'])
+        return v
+
     def _rxn(self, c):
         from chempy import Reaction, Equilibrium, Substance
         Cls = Equilibrium if c['eq'] else Reaction
-        rxn = Cls(dict((k, v) for k, v in c['reac']), dict((k, v) for k, v in c['prod']), checks=())
+        rxn = Cls(dict((k, self._coef(v)) for k, v in c['reac']), dict((k, self._coef(v)) for k, v in c['prod']), checks=())
         subst = {k: Substance.from_formula(k) for k in c['substances']}
         return rxn, subst
 
@@ -290,8 +312,10 @@ class C13(Property):
         if op == 'species':
             return {'op': 'species', 's': c['s'], 'phases': c['phases'], 'default': c['default']}
         if op == 'reaction':
+            if any(isinstance(v, dict) for _, v in c['reac'] + c['prod']):
+                return None                # float coefficients: oracle only
             rxn, _ = self._rxn(c)          # the model prints the STORED order (the constructor sorts plain dicts by key)
-            return dict(c, reac=[[k, v] for k, v in rxn.reac.items()], prod=[[k, v] for k, v in rxn.prod.items()])
+            return dict(c, reac=[[k, rat_json(v)] for k, v in rxn.reac.items()], prod=[[k, rat_json(v)] for k, v in rxn.prod.items()])
         return c
 
     def _three(self, s):
@@ -374,7 +398,7 @@ class C13(Property):
             subs_, sups = subscripts(w, out[len(want_pre):]), superscripts(w, out[len(want_pre):])
             if subs_ != count_texts(f):
                 return 'formula_to_%s(%r) = %r: subscripts %r, written counts %r' % (w, s, out, subs_, count_texts(f))
-            want_sup = [] if f['charge'] is None else [charge_token(f['charge'])]
+            want_sup = [] if (f['charge'] is None or is_zero_charge(f['charge'])) else [charge_token(f['charge'])]
             if sups != want_sup:
                 return 'formula_to_%s(%r) = %r: superscripts %r, expected %r' % (w, s, out, sups, want_sup)
             back = UN[w](out)
@@ -383,7 +407,8 @@ class C13(Property):
             comp = call(formula_to_composition, back)
             if is_exc(comp):
                 return 'undone %s presentation %r of %r does not parse: %s' % (w, back, s, comp[1])
-            if set(comp) != set(want_comp) or any(not close(comp[k], v, 1e-12, 0.0) for k, v in want_comp.items()):
+            want_back = {k: v for k, v in want_comp.items() if not (k == 0 and is_zero_charge(f['charge']))}   # only 0 -> 0 may go
+            if set(comp) != set(want_back) or any(not close(comp[k], v, 1e-12, 0.0) for k, v in want_back.items()):
                 return 'undone %s presentation %r of %r has composition %r, written %r' % (w, back, s, comp, want_comp)
         if set(sub.composition) != set(want_comp) or any(not close(sub.composition[k], v, 1e-12, 0.0) for k, v in want_comp.items()):
             return 'Substance.from_formula(%r).composition = %r, written %r' % (s, sub.composition, want_comp)
@@ -409,8 +434,6 @@ class C13(Property):
         if is_exc(o):
             # a suffix outside phases + (aq) stays in the text: formulas ending in such a token may legitimately be rejected
             if f['suffix'] and f['suffix'] not in keys + ['(aq)']:
-                return None
-            if f['charge'] is not None and f['charge'][1] == 0:
                 return None
             return 'Species.from_formula(%r, %r) raised %s' % (s, phases, o[1])
         if o.phase_idx != want:
@@ -438,7 +461,7 @@ class C13(Property):
             return fns[pr](k)
 
         def side(d):
-            return ' + '.join(('' if v == 1 else '%d ' % v) + name(k) for k, v in d.items() if v != 0)
+            return ' + '.join(('' if v == 1 else str(v) + ' ') + name(k) for k, v in d.items() if v != 0)
         want = side(rxn.reac) + ' ' + ARROWS[(pr, c['eq'])] + ' ' + side(rxn.prod)
         if out != want:
             return '%s print of reaction %r / %r is %r, expected %r' % (pr, list(rxn.reac.items()), list(rxn.prod.items()), out, want)
